@@ -9,6 +9,8 @@ Classes are written by qualified name; the driver resolves them against the clas
 the harness sends with every request."""
 from __future__ import annotations
 
+import hashlib
+
 from ..common import LEAN, write_if_changed
 
 
@@ -64,8 +66,17 @@ def _node(n: dict, ind: int) -> str:
     return f'.mk {f} [\n' + ',\n'.join(rows) + ']'
 
 
+def fingerprint(t: dict) -> str:
+    """Identity of the extracted tables; the compiled Lean module reports it back (driver request
+    `tables`), so a stale build artifact of Extracted/Infer.lean cannot go unnoticed."""
+    def plain(n):
+        return [n['factory'], [(k, plain(v)) for k, v in n['next']]]
+    return hashlib.sha1(repr([plain(t['fsm']), t['builtin'], t['scalars'], t['tuple_max']]).encode()).hexdigest()[:16]
+
+
 def extract() -> dict:
     t = tables()
+    t['fingerprint'] = fingerprint(t)
     text = ('/- GENERATED on every run by harness/extract/infer.py from beartype/bite/collection/infercollectionsabc.py\n'
             '   (get_finite_state_machine), infercollectionbuiltin.py (_COLLECTION_BUILTIN_TYPE_TO_HINT_FACTORY),\n'
             '   infercollectionitems.py (_ROOT_TUPLE_FIXED_ITEMS_LEN_MAX), _data/py/databuiltins.py (BUILTIN_TYPES_SCALAR).\n'
@@ -79,6 +90,8 @@ def extract() -> dict:
             ',\n  '.join(f'({_s(a)}, {_s(b)})' for a, b in t['builtin']) + ']\n\n'
             'def inferScalars : List String := [' + ', '.join(_s(x) for x in t['scalars']) + ']\n\n'
             f'def inferRootTupleMax : Nat := {t["tuple_max"]}\n\n'
+            '/-- identity of these tables (reported back by the driver: guards against stale build artifacts) -/\n'
+            f'def inferFingerprint : String := "{t["fingerprint"]}"\n\n'
             'end BearVerif.Extracted\n')
     write_if_changed(LEAN / 'BearVerif/Extracted/Infer.lean', text)
     return t
